@@ -19,7 +19,7 @@
      part file, and rm_part_on_exc is off, or it is gone, or an unlink of it failed;
    - [link_then_unlink_failed tr]: guard of the open finding C05-link-unlink (= Check known5). *)
 From Boltons Require Import Lib.Prelude Model.C04_Model Spec.C04_Spec Check.C04_Check Spec.C05_Spec Check.C05_Check
-     Proofs.C04_Inv Proofs.C04_Examples Proofs.C05_Basic Proofs.C05_Inv Proofs.C05_Live Proofs.C05_Retry Proofs.C05_Intrude Proofs.C05_Transfer Proofs.C05_Examples.
+     Proofs.C04_Inv Proofs.C04_Examples Proofs.C05_Basic Proofs.C05_Inv Proofs.C05_Live Proofs.C05_Retry Proofs.C05_Intrude Proofs.C05_Invalid Proofs.C05_Transfer Proofs.C05_Examples.
 Open Scope N_scope.
 
 (* overwrite=False and the destination exists at entry: the caller gets EEXIST before any primitive
@@ -146,13 +146,13 @@ Print Assumptions C05_noclobber.
    observations satisfy Spec/C05_Spec.c05_spec (destination content+mode unchanged on failure, clean-up,
    stale part file respected, refusal, other entries unchanged, retry, completed content and permissions,
    no-clobber) and C04's Spec: holds5 = true.
-   PARTIAL: valid arguments only (c_fdopen_invalid = false: the unbuffered-text-mode configuration, whose
-   clauses are evaluated on the observations only). *)
+   PARTIAL only in that cases inside the guard of the open finding (known5) are excluded - there the
+   full statement is false (C05_fault_refuted).  Every configuration is covered, including the one whose
+   arguments the io layer rejects. *)
 Theorem C05_agree_implies_holds_partial :
   forall c : c05_case,
     c_dest (k_cfg (k5_base c)) <> c_part (k_cfg (k5_base c)) ->
     same_dir (c_part (k_cfg (k5_base c))) = true ->
-    c_fdopen_invalid (k_cfg (k5_base c)) = false ->
     agree5 c = true -> known5 c = false -> holds5 c = true.
 Proof. exact agree5_implies_holds5. Qed.
 Print Assumptions C05_agree_implies_holds_partial.
